@@ -159,5 +159,5 @@ def run(case):
     return res
 
 
-PROFILES = {"trsbox": Profile("trsbox", cases, run, quick=60000, thorough=1000000, timeout=60)}
+PROFILES = {"trsbox": Profile("trsbox", cases, run, quick=60000, thorough=1000000, timeout=60, fuzz=(1500, 60000))}
 KNOWN = {}
